@@ -273,6 +273,12 @@ class Walker:
             blk = body.blocks[bb]
             for st in blk["stmts"]:
                 if st["k"] == "assign":
+                    rv_ = st["rv"]
+                    if rv_["rv"] == "cast" and rv_.get("kind") == "Transmute" and any(u["user"] for u in body.unsafe_blocks) \
+                            and not (rv_["from"].get("k") == "ptr" and rv_["to"].get("k") == "ptr") \
+                            and not (rv_["from"].get("path", "").endswith("NonNull") and rv_["to"].get("k") == "ptr"):
+                        th_ = env.get("$theta") or {}
+                        events.append(("xmute", _subst_ty(rv_["from"], th_), _subst_ty(rv_["to"], th_), body.key))
                     self.write_place(body, env, st["place"], self.rvalue(body, env, st["rv"]), events)
             t = blk["term"]
             k = t["k"]
@@ -299,6 +305,31 @@ class Walker:
                     events.append(("call", next(self.sites), info["key"], info["base_key"], info["def"], args, info["targs"], None))
                     self._finish(events, ("panic", info["key"]), None, env)
                     return
+                # a `for` over a literal array of at most 8 elements is unrolled: into_iter([e0, e1, ..]) is a counted
+                # iterator, next() yields e0, e1, .. and then None
+                if info["key"] == "<[T; N] as IntoIterator>::into_iter" and args:
+                    a0 = mir.strip_refs(args[0]) if args[0][0] == "ref" else args[0]
+                    if a0[0] == "agg" and a0[1] == "array" and len(a0[4]) <= 8:
+                        site = next(self.sites)
+                        self.write_place(body, env, t["dest"], ("arrit", site, tuple(a0[4])), events)
+                        bb = t["t"]
+                        continue
+                if info["key"] == "<IntoIter<T, N> as Iterator>::next" and args:
+                    a0 = mir.strip_refs(args[0])
+                    if a0[0] == "arrit":
+                        pos = dict(env.get("$arrit") or {})
+                        i = pos.get(a0[1], 0)
+                        pos[a0[1]] = i + 1
+                        env["$arrit"] = pos
+                        if i < len(a0[2]):
+                            val = ("agg", "adt", "core::option::Option", "Some", [a0[2][i]])
+                        else:
+                            val = ("agg", "adt", "core::option::Option", "None", [])
+                        if i <= len(a0[2]):
+                            stack = tuple(k_ for k_ in stack if k_[0] != id(body))     # the loop may be entered / left again
+                        self.write_place(body, env, t["dest"], val, events)
+                        bb = t["t"]
+                        continue
                 # inlining: selected helpers, private non-anchor local helpers, directly invoked local closures
                 callee = None
                 cargs = args
